@@ -41,19 +41,21 @@ namespace Givaro {
         ~RefCountPtr()
         {
             if (--*_count ==0) {
-                delete data;
+                delete _data;
                 GivaroMM<int>::desallocate(_count);
             }
         }
 
         RefCountPtr<T>& operator=( const RefCountPtr<T>& ptr )
         {
+            if (this == &ptr) return *this;
             if (--*_count ==0) {
-                delete data;
+                delete _data;
                 GivaroMM<int>::desallocate(_count);
             }
             _data = ptr._data; _count = ptr._count;
             if (_count !=0) *_count += 1;
+            return *this;
         }
 
         T& operator* () const { return *_data; }
